@@ -1,24 +1,86 @@
-"""Registry: property -> units of each engine, claim text, assumptions."""
+"""Registry: property -> units of each engine, claim text, assumptions.  MANIFEST.json is generated from this
+file by tools/gen_manifest.py so that the two never disagree."""
 import os
 from vlib import runner
 
-COMMON_TRUSTED = [
+T_VERUS = [
     "Verus 0.2026.09.13 + bundled Z3 (soundness of the verifier and of its encoding of Rust)",
     "rustc 1.98.1 front end / CTFE for const assertions",
-    "overlay tool (/verif/vlib/overlay.py + tools/vfx): insert-only annotation of the real source, listed in coverage.overlay",
+    "overlay tool (/verif/vlib/overlay.py + tools/vfx): insert-only annotation of the real source, every edit listed in coverage.overlay",
     "vstd specifications of core/alloc (Vec, slices, Option, Result, integer ops)",
 ]
-COMMON_ASSUMPTIONS = [
+T_RING = [
+    "ring/trace checker /verif/vlib/ring.py + poly.py (symbolic execution of the real fn AST, exact polynomial normal form)",
+    "syn 2 parser (tools/vfx) for the AST dump of the real source",
+    "the independent protocol statement /verif/specs/ring/protocol.py, verifier.py (reviewed by hand)",
+]
+A_VERUS = [
     "64-bit target: `global size_of usize == 8`",
     "contracts marked external_body / assume_specification (listed in coverage.assumed_contracts) are assumed, not proved",
 ]
+A_RING = [
+    "RING model: BlsScalar + - * neg square double are the operations of a commutative ring of characteristic r "
+    "(machine arithmetic treated as mathematical); G1 points and Polynomials form a module over it (msm, +, -, scalar *)",
+    "callee contracts of dependencies used by R (merlin Transcript::{new,append_message,append_u64,challenge_bytes} as log events; "
+    "msm_variable_base = sum s_i*P_i; batch_normalize = identity on group elements; pairing functions opaque)",
+    "std iterator adaptors on fixed-size arrays (iter/zip/map/sum, extend_from_slice, copy_from_slice) have their documented semantics",
+]
+
+WIDGETS_PK = ("compute_quotient_i", "compute_linearization", "quotient_", "linearizer_", ".delta", "delta_xor_and", "extract_bit", "check_bit")
+
+
+def pk_unit(n):
+    return (n.endswith("compute_quotient_i") or n.endswith("compute_linearization") or "quotient_" in n or "linearizer_" in n
+            or n.endswith(".delta") or n.endswith("delta_xor_and") or n.endswith("extract_bit") or n.endswith("check_bit_consistency"))
+
+
+def vk_unit(n):
+    return n.endswith("compute_linearization_commitment") or n.endswith(".delta") or n.endswith("delta_xor_and") \
+        or n.endswith("extract_bit") or n.endswith("check_bit_consistency")
+
 
 PROPS = {
+    "C03": {
+        "r": [("verifier", None), ("widgets", vk_unit)],
+        "claim": "Proof::verify (V2/V3), verify_legacy (V1), Verifier::verify_with_version, the six widget "
+                 "compute_linearization_commitment fns, append_linearization_commitment_terms, the transcript protocol "
+                 "(append_commitment/append_scalar/challenge_scalar/circuit_domain_sep/base/base_v3) and verifier-key seeding: "
+                 "for ALL symbolic inputs the real code's transcript schedule, its two pairing inputs and its exits are "
+                 "equal (exact polynomial normal form / sequence equality) to an independent statement of the PLONK "
+                 "verification equation and Fiat-Shamir order.",
+        "technique": "contract-based deductive verification: ring/trace contract checker (symbolic execution of the real fn, "
+                     "callee contracts, exact polynomial normal form)",
+        "level_note": "Trusted: the checker R itself, syn, the hand-written protocol statement. Assumed: RING model of the field, "
+                      "merlin/msm/batch_normalize/pairing contracts; L1(z), PI(z), Z_H(z) are uninterpreted here.",
+        "design_ref": "DESIGN.md §4 C03, §2.2.1",
+        "assumptions": A_RING,
+        "trusted": T_RING,
+        "not_covered": ["meaning of L1(z)/PI(z)/Z_H(z) (lagrange helper, evaluate_vanishing_polynomial bodies)",
+                        "Verifier::new establishing self.transcript == base(label, vk, constraints)"],
+    },
+    "C05": {
+        "r": [("widgets", pk_unit)],
+        "claim": "the five ProverKey::compute_quotient_i / compute_linearization and the permutation quotient/linearizer "
+                 "terms equal, as polynomials in all their inputs, the gate identities of specs/ring/protocol.py times "
+                 "selector and separation challenge (all field values, all rows).",
+        "technique": "contract-based deductive verification: ring/trace contract checker (exact polynomial normal form)",
+        "level_note": "Decides only the per-row identities computed by the prover. Not decided: the equivalence between "
+                      "`quotient degree <= 7n` and row-wise satisfaction (polynomial division over the FFT), sigma construction.",
+        "design_ref": "DESIGN.md §4 C05",
+        "assumptions": A_RING,
+        "trusted": T_RING,
+        "not_covered": ["returns a proof exactly when every row identity holds (A2)", "compute_sigma_permutations (A3)",
+                        "never panics (quotient split, see DESIGN §6.1)"],
+    },
     "C15": {
         "v_units": ["capacity.py"],
-        "claim": "capacity arithmetic of the compressed route",
-        "assumptions": COMMON_ASSUMPTIONS + ["usize::leading_zeros contract (std)"],
-        "trusted": COMMON_TRUSTED,
+        "claim": "capacity arithmetic of the compressed route: Compiler::max_constraints, CommitKey::{max_degree,truncate}, "
+                 "PublicParameters::max_degree against their specs for all usize inputs.",
+        "technique": "contract-based deductive verification: Verus on the real functions annotated in place (overlay)",
+        "level_note": "Only the capacity arithmetic so far. Not decided: byte identity of the keys of the two routes.",
+        "design_ref": "DESIGN.md §4 C15",
+        "assumptions": A_VERUS + ["usize::leading_zeros, <[T]>::to_vec contracts (std)"],
+        "trusted": T_VERUS,
         "not_covered": ["byte identity of keys from the two routes (from_composer/hashbrown not under contract)"],
     },
 }
@@ -27,3 +89,14 @@ PROPS = {
 def run(pid, cfg, res, tier, seed):
     if cfg.get("v_units"):
         runner.run_v(res, cfg["v_units"])
+    for (mod, sel) in cfg.get("r", []):
+        runner.run_r(res, [mod], select=sel, seed=seed)
+
+
+# properties not (yet) claimed; reason shown in MANIFEST.not_applicable.  Entries disappear as units are built.
+NA = {
+    "C18": "quantifies over thread-pool sizes, schedules, fresh processes and std/alloc-only builds: Kani has no threads, "
+           "Verus has no model of rayon, and equality of two builds is a relation between two programs, not a contract of one "
+           "function (DESIGN.md §5)",
+}
+NOT_YET = "no contract unit built yet for this property in this framework (work in progress, see DESIGN.md §4); not claimed"
